@@ -298,9 +298,15 @@ class Prog:
             b = rng.choice([a, a + 1 if a < 2**31 - 1 else a, a - 1 if a > -(2**31) + 1 else a, rng.choice(vals), 0])
             code = rng.choice([0x93, 0x94, 0x9A, 0x9B, 0x9C, 0x9E, 0x9F, 0xA0, 0xA1, 0xA2, 0xA3, 0xA4])
             self.emit(push_num(a) + push_num(b) + bytes([code]), 1)
-        else:
+        elif r < 0.9:
             a = rng.choice(vals)
             self.emit(push_num(a) + bytes([rng.choice([0x8B, 0x8C, 0x8F, 0x90, 0x91, 0x92])]), 1)
+        else:
+            # the 4-byte operand / 5-byte result asymmetry: a result may overflow, the next op code may not read it
+            a = rng.choice([2**31 - 1, -(2**31) + 1, 2**31 - 2])
+            first = rng.choice([b"\x8b", b"\x8c", b"\x76\x93", b"\x8f\x8c"])
+            second = rng.choice([b"\x8b", b"\x8c", b"\x91", b"\x82", b"\x75\x51", b"\x8f", b"\x00\x93"])
+            self.emit(push_num(a) + first + second, 3)
         self.st.append(N)
 
     def a_pickroll(self):
@@ -473,7 +479,7 @@ def limit_programs(rng):
         out.append((b"\x51" * 30 + nop * k, [], f"ops{k}+pushes"))
         out.append((b"\x00\x63" + nop * (k - 2) + b"\x68", [], f"ops{k}-dead"))
         out.append((b"\x50" * 0 + b"\x00\x63" + b"\x50" * 40 + nop * (k - 2) + b"\x68", [], f"ops{k}-reserved-free"))
-    for nk in (0, 1, 19, 20):
+    for nk in (0, 1, 19, 20, 21):
         for k in (179, 180, 181, 182, 199, 200, 201):
             # k NOPs + CHECKMULTISIG (1) + nk keys
             body = nop * k + b"\x00\x00" + b"".join(push(b"\x02" + bytes(32)) for _ in range(nk)) + push_num(nk) + b"\xae"
@@ -496,6 +502,60 @@ def limit_programs(rng):
         out.append((pushes + nop * pad if pad <= 201 else pushes + b"\x51" * pad, [], f"size{n}"))
         out.append((b"\x51" * n, [], f"size{n}-ones"))
         out.append((b"\x00\x63" + push(bytes(500), 77) * 19 + b"\x68" + b"\x00" * (n - 3 - 19 * 503), [], f"size{n}-dead"))
+    return out
+
+
+LT_T = 500000000
+LOCKTIMES = [0, 100, LT_T - 1, LT_T, LT_T + 1, 2**32 - 1]
+SEQUENCES = [0xFFFFFFFF, 0xFFFFFFFE, 0, 5, 0xFFFF, 0x10000, 0x3FFFFF, 0x400000, 0x400005, 0x40FFFF, 0x410000,
+             0x7FFFFFFF, 0x80000000, 0x80000005, 0x80400005]
+VERSIONS = [1, 2, 0, 3, 2**32 - 1]
+
+
+def locktime_programs(rng, full=False):
+    """OP_CHECKLOCKTIMEVERIFY / OP_CHECKSEQUENCEVERIFY with operand and transaction fields sitting exactly on every
+    threshold: 500000000 (kind), the operand against the field (-1, 0, +1), final sequence, bit 31 (disable),
+    bit 22 (type), the 16-bit mask, version 2, the 5-byte operand width.  -> (script, lock_time, sequence, version)"""
+    out = []
+    for lt in LOCKTIMES:
+        ops = {0, -1, 1, lt, lt - 1, lt + 1, LT_T - 1, LT_T, LT_T + 1, 2**31 - 1, 2**31, 2**32 - 1, 2**39 - 1, 2**39}
+        for o in sorted(ops):
+            if o > 2**63 - 1 or o < -(2**63):
+                continue
+            for seq in ((0xFFFFFFFF, 0xFFFFFFFE, 0) if full or o in (lt, lt + 1, lt - 1, LT_T, LT_T - 1) else (0xFFFFFFFE,)):
+                out.append((push_num(o) + b"\xb1", lt, seq, 1))
+    for seq in SEQUENCES:
+        masked = seq & 0x40FFFF
+        ops = {0, -1, 1, masked, masked - 1, masked + 1, seq & 0xFFFF, (seq & 0xFFFF) + 1, 0x400000 | (seq & 0xFFFF),
+               (0x400000 | (seq & 0xFFFF)) + 1, 0x3FFFFF, 0x400000, 0x40FFFF, 0x410000, 0xFFFF, 0x10000, 0x80000000,
+               0x80000000 | masked, 0x80000000 | 0x40FFFF, 0x7FFFFFFF, 0xFFFFFFFF, 2**39 - 1, 2**39, seq}
+        for o in sorted(ops):
+            if o < -1:
+                continue
+            for ver in (VERSIONS if full or o in (masked, masked + 1) else (2, 1)):
+                out.append((push_num(o) + b"\xb2", 0, seq, ver))
+    # non-minimal / empty / missing operands
+    for tail in (b"\xb1", b"\xb2"):
+        for pre in (b"", b"\x00", b"\x01\x00", b"\x05" + bytes(5), b"\x06" + bytes(6), b"\x05\xff\xff\xff\xff\x00",
+                    b"\x05\xff\xff\xff\xff\x80"):
+            out.append((pre + tail, LT_T, 5, 2))
+    return out
+
+
+def budget_programs():
+    """tapscript validation weight: k non-empty signatures against an upgradable (33-byte) and against an unknown-size
+    key, budget 50k-1 / 50k / 50k+1; empty signatures are free.  -> (script, weight)"""
+    out = []
+    up = push(b"\x01") + push(b"\x02" + bytes(32)) + b"\xac\x75"      # <sig> <33-byte key> CHECKSIG DROP
+    free = b"\x00" + push(b"\x02" + bytes(32)) + b"\xac\x75"
+    add = push(b"\x01") + b"\x00" + push(bytes(31)) + b"\xba\x75"     # CHECKSIGADD, 31-byte key
+    for k in (1, 2, 3, 7):
+        for w in (50 * k - 51, 50 * k - 50, 50 * k - 1, 50 * k, 50 * k + 1):
+            if w < 0:
+                continue
+            out.append((up * k + b"\x51", w))
+            out.append((add * k + b"\x51", w))
+            out.append((up * (k - 1) + free * 3 + up + b"\x51", w))
     return out
 
 
